@@ -140,10 +140,24 @@ impl<'a> G<'a> {
     pub fn fresh_msg(&mut self) -> Msg {
         self.ctr += 1;
         let payload = self.rng.bytes(self.rng.0 as usize % 5);
+        // now and then a chain name / id / sender string of another length class (20, 21, 32, 33, 70, 300 characters)
+        let lens = [20usize, 21, 32, 33, 70, 300];
+        let mut chain = format!("chain{}", self.ctr % 3).into_bytes();
+        let mut id = format!("m{}", self.ctr).into_bytes();
+        let mut src = b"0xSrc".to_vec();
+        if self.rng.chance(1, 8) {
+            chain.resize(*self.rng.pick(&lens), b'c');
+        }
+        if self.rng.chance(1, 8) {
+            id.resize(*self.rng.pick(&lens), b'i');
+        }
+        if self.rng.chance(1, 8) {
+            src.resize(*self.rng.pick(&lens), b's');
+        }
         Msg {
-            chain: format!("chain{}", self.ctr % 3).into_bytes(),
-            id: format!("m{}", self.ctr).into_bytes(),
-            src: b"0xSrc".to_vec(),
+            chain,
+            id,
+            src,
             contract: Addr::c(50 + (self.ctr % 3) as u8),
             ph: keccak(&payload),
         }
